@@ -371,7 +371,7 @@ def shard_run(arg):
 
 def run(tier, seed, work):
     res = vp.Result("C08", tier, seed, "exploration")
-    n = 1000 if tier == "quick" else 6000
+    n = 1000 if tier == "quick" else 20000
     for d in vp.pmap(shard_run, [(seed, s, work) for s in vp.split(range(n), vp.NCPU)]):
         res.merge(d)
     res.extra["base_documents"] = n
